@@ -231,7 +231,25 @@ def replay_cv_reuse(sc):
                                     f"mean(Y - b*(X - price_X)) with X the forward on the spot = {want!r}")
 
 
-def h_cv_comp(ctx, n, reuse=False):
+def replay_cv_log(sc):
+    """process simulated in log-spot, product on the spot, control = forward on the log-spot (another underlying type than the product's):
+    reported price = mean(Y - b*(X - price_X)) with X the control's own payoff df * notional_x * (log S_T - K)"""
+    ls = [-0.2, 0.3, 0.1, 0.6, -0.5]
+    cvprod = PROD.Product(payoff_underlying=UND.LogSpot(), payoff=PAY.Forward(strike=0.05), maturity=1.0, notional=2.5)
+    cv = PROD.ControlVariates(products=[cvprod], prices=[0.1])
+    eng, prod, proc = make(None, len(ls), [1.0], 2.0, 0.9, cv=cv, concrete=ls)
+    proc.process_representation = ProcessRepresentation.LOG
+    stats = eng.price(prod)
+    Y = np.array([0.9 * 2.0 * max(np.exp(x) - 1.0, 0.0) for x in ls])
+    X = np.array([0.9 * 2.5 * (x - 0.05) for x in ls])
+    c = np.cov(X, Y, bias=True)
+    want = float(np.mean(Y - c[0, 1] / c[0, 0] * (X - 0.1)))
+    got = float(np.ravel(stats.price())[0])
+    return not (abs(got - want) <= 1e-9), (f"log-simulated process (log-spots {ls}), call on the spot, control = forward on the log-spot: reported price {got!r}, "
+                                    f"mean(Y - b*(X - price_X)) = {want!r}")
+
+
+def h_cv_comp(ctx, n, reuse=False, log_process=False):
     """one control, compositional (fast in both directions): (a) the covariance entries the library computes are the biased sample
     covariances; (b) over an arbitrary covariance matrix sigma (fresh symbols) the adjusted samples are Y_j - (sigma_xy/sigma_xx)(X_j - p):
     adjusted mean and adjusted variance follow as polynomial identities of low degree."""
@@ -254,6 +272,15 @@ def h_cv_comp(ctx, n, reuse=False):
         rp = (replay_cv_reuse, lambda m: {})
         info = {"n": n, "controls": 1, "reuse": True}
         Y = [df * notional * shims._smax_fork(shims.sym_log(sp) - k0, 0.0) for sp in spots]
+    elif log_process:
+        # the process is simulated in log-spot (the handed-out values are log S_T); the product is written on the spot, the control on the
+        # log-spot: both must be valued in the representation of the process
+        cvprod.payoff_underlying = UND.LogSpot()
+        eng, prod, proc = make(ctx, n, [k0], notional, df, cv=cv, concrete=spots)
+        proc.process_representation = ProcessRepresentation.LOG
+        rp = (replay_cv_log, lambda m: {})
+        info = {"n": n, "controls": 1, "log_process": True}
+        Y = [df * notional * shims._smax_fork(shims.sym_exp(s) - k0, 0.0) for s in spots]
     else:
         eng, prod, proc = make(ctx, n, [k0], notional, df, cv=cv, concrete=spots)
         rp = (replay_cv, lambda m: {"n": max(n, 4), "nx": 2.5})
@@ -472,6 +499,7 @@ def harnesses(tier):
         hs.append(Harness(f"cv1.N{n}", h_cv_comp, {"n": n}, max_paths=4000, timeout_ms=60000))
     for n in ((3,) if q else (3, 4)):
         hs.append(Harness(f"cv2.N{n}", h_cv2, {"n": n}, max_paths=2000, timeout_ms=120000))
+    hs.append(Harness("cv1.N2.log_process", h_cv_comp, {"n": 2, "log_process": True}, max_paths=4000, timeout_ms=60000))
     hs.append(Harness("cv1.N2.controls_object_reused", h_cv_comp, {"n": 2, "reuse": True}, max_paths=4000, timeout_ms=60000))
     hs.append(Harness("cv2.uncorrelated.N3", h_cv2, {"n": 3, "uncorrelated": True}, max_paths=2000, timeout_ms=120000))
     for n in ((1, 2) if q else (1, 2, 3)):
@@ -486,7 +514,7 @@ EXPECT = ["C07.price_is_discounted_mean_of_notional_scaled_payoff", "C07.mc_erro
 
 
 # reference replays run when the symbolic run of a harness ends in an exception of the code under analysis (see runner.run_check)
-ERROR_REPLAYS = {"cv2.uncorrelated": (replay_cv2_uncorrelated, {}), "cv2.": (replay_cv2, {"n": 4}), "cv1.N2.controls_object_reused": (replay_cv_reuse, {}), "cv": (replay_cv, {"n": 4, "nx": 2.5}),
+ERROR_REPLAYS = {"cv2.uncorrelated": (replay_cv2_uncorrelated, {}), "cv2.": (replay_cv2, {"n": 4}), "cv1.N2.controls_object_reused": (replay_cv_reuse, {}), "cv1.N2.log_process": (replay_cv_log, {}), "cv": (replay_cv, {"n": 4, "nx": 2.5}),
                  "price.": (replay_price, {"n": 3, "strikes": [0.9, 1.3]}), "twice.": (replay_twice, {"n": 2})}
 
 
